@@ -500,6 +500,7 @@ class World:
 
     def reset(self):
         self.engine.asl_store.store.clear()
+        self.engine.asl_store._update_store()       # (the file too: the persistence law reads it)
         self.engine.executions.clear()
         self.engine.execution_history.clear()
         self.engine.branch_metadata.clear()
@@ -730,6 +731,7 @@ class Runner:
                                "lines": lines, "exc": exc})
             return
         world.uuid.next = "uuid-%d" % i
+        pending0 = set(str(k) for k in world.engine.task_dispatcher.pending_requests)
         npub = len(world.disp.published)
         data = body_bytes(op)
         world.disp.fail_publish = bool(op.get("publish_fails"))
@@ -750,6 +752,16 @@ class Runner:
               "published": [dict(project_event(e), shared=world.disp.shared.get(id(e))) for e in pub]}
         if status == 200 and op["action"] == "CreateStateMachine" and isinstance(resp.get("body"), dict):
             st["arn_ok"] = bool(world.mod.valid_state_machine_arn(resp["body"].get("stateMachineArn")))
+        if op["action"] == "StartSyncExecution":
+            st["pending_after"] = sorted(str(k) for k in world.engine.task_dispatcher.pending_requests if str(k) not in pending0)
+        if status == 200 and op["action"] in ("CreateStateMachine", "UpdateStateMachine", "DeleteStateMachine"):
+            # what a restarted engine would load: the store's file (the stores' own persistence is C20's subject; here:
+            # the front end writes what it answered *through* the store, not just into the object it read from it)
+            try:
+                with open(world.engine.asl_store.json_store) as f:
+                    st["persisted"] = json.load(f)
+            except Exception as e:      # noqa
+                st["persisted"] = {"unreadable": type(e).__name__}
         if "frame" in op:
             st["kind"] = "frame"
         elif op["action"] in LAW_ONLY:
@@ -837,6 +849,17 @@ def check_step(st, answer):
     if action == "DescribeStateMachine" and st["kind"] == "call" and resp["status"] != 200 and \
             isinstance(body.get("stateMachineArn"), str) and body["stateMachineArn"] in before["machines"]:
         out.append(("impl-violates-law", LAW_F5_DESCRIBE, {"resp": resp, "arn": body["stateMachineArn"]}, None))
+    if st["info"].get("awaited") and resp["status"] == 200 and st["info"].get("engine_raised"):
+        out.append(("impl-violates-law", "the engine ends a synchronously started execution without raising (its answer is followed by the terminal notification)",
+                    {"resp": resp, "engine_raised": st["info"]["engine_raised"]}, None))
+    if st.get("pending_after") and not op.get("publish_fails"):
+        # (a start whose publish is refused by the broker — 500 — does leave its entry and its 30-minute timer behind:
+        # recorded as a lead in DESIGN §11.2, the broker's refusal is an environment fault outside the property)
+        out.append(("impl-violates-law", "an answered StartSyncExecution (result, refusal or time-out) leaves no pending request registered for it",
+                    {"resp": resp, "pending_requests": st["pending_after"]}, None))
+    if "persisted" in st and cj(st["persisted"]) != cj(after["machines"]):
+        out.append(("impl-violates-law", "a change the API answered with 200 has been written through the store (a restarted engine reads it back)",
+                    {"resp": resp, "stored_in_memory": after["machines"], "in_the_store_file": st["persisted"]}, None))
     if resp["status"] == 200 and action == "CreateStateMachine" and isinstance(resp.get("body"), dict):
         try:
             arn = resp["body"]["stateMachineArn"]
@@ -1170,7 +1193,7 @@ def run(chk):
     counters = {"requests": 0, "types": set()}
     if os.path.isdir(KEEP):
         for fn in os.listdir(KEEP):
-            if fn.startswith("C10-"):
+            if fn.startswith("C10-%d-" % chk.seed):       # this seed's only: runs with other seeds may be going on
                 os.unlink(os.path.join(KEEP, fn))
     try:
         worlds = [World("asyncio", False, tmp), World("blocking", False, tmp), World("asyncio", True, tmp)]
@@ -1223,7 +1246,8 @@ def run(chk):
         missing = sorted(want - counters["types"])
         chk.cov["types"] = {"answerable": len(want), "answered": len(want & counters["types"]),
                             "not_answered": ["%s.%s" % m for m in missing]}
-        if missing:
+        if missing and not chk.violations:
+            # (with violations at hand the answers that never came are part of what went wrong, not a fault of the generator)
             raise common.InfraError("C10 generator: __type values never answered in this run: %s" % missing)
         chk.cov["rule"] = (
             "histories of 4..%d operations (the nine actions of the property, GetExecutionHistory with every kind of "
